@@ -9,6 +9,7 @@ INVARIANT InputNeverWritten
 INVARIANT Memo
 INVARIANT DeterministicIgnoresRng
 INVARIANT StreamAccounting
+INVARIANT PropertyMemoMeansFreshSeed
 INVARIANT HomWellDefined
 INVARIANT Export
 PROPERTY NoWrite
